@@ -13,6 +13,8 @@ pub mod c05;
 pub mod c14;
 pub mod c08;
 pub mod c16;
+pub mod c09;
+pub mod c20;
 pub mod c18;
 
 pub fn lookup(id: &str) -> Option<&'static dyn Prop> {
@@ -31,6 +33,8 @@ pub fn lookup(id: &str) -> Option<&'static dyn Prop> {
         "C14" => Some(&c14::C14),
         "C08" => Some(&c08::C08),
         "C16" => Some(&c16::C16),
+        "C09" => Some(&c09::C09),
+        "C20" => Some(&c20::C20),
         "C18" => Some(&c18::C18),
         _ => None,
     }
